@@ -163,6 +163,7 @@ func (r *RibEntry) updateNexthopsEnc() {
 
 // AddRoute adds or updates a RIB entry for the specified prefix.
 func (r *RibTable) AddEncRoute(name enc.Name, route *Route) {
+	verifGate("rib")
 	r.mutex.Lock()
 	defer r.mutex.Unlock()
 
@@ -190,6 +191,7 @@ func (r *RibTable) AddEncRoute(name enc.Name, route *Route) {
 // GetAllEntries returns all routes in the RIB. The entries returned are a snapshot
 // (name and copies of the routes) that later RIB operations do not touch.
 func (r *RibTable) GetAllEntries() []*RibEntry {
+	verifGate("rib")
 	r.mutex.Lock()
 	defer r.mutex.Unlock()
 
@@ -225,6 +227,7 @@ func (r *RibEntry) GetRoutes() []*Route {
 
 // RemoveRoute removes the specified route from the specified prefix.
 func (r *RibTable) RemoveRouteEnc(name enc.Name, faceID uint64, origin uint64) {
+	verifGate("rib")
 	r.mutex.Lock()
 	defer r.mutex.Unlock()
 
@@ -247,6 +250,7 @@ func (r *RibTable) RemoveRouteEnc(name enc.Name, faceID uint64, origin uint64) {
 
 // CleanUpFace removes the specified face from all entries. Used for clean-up after a face is destroyed.
 func (r *RibTable) CleanUpFace(faceId uint64) {
+	verifGate("rib")
 	r.mutex.Lock()
 	defer r.mutex.Unlock()
 
